@@ -7,7 +7,7 @@
 #include <xenium/vyukov_bounded_queue.hpp>
 
 using namespace xsim;
-namespace {
+namespace hx_bqueues {
 enum { OP_PUSH = 1, OP_PUSH_S, OP_PUSH_W, OP_POP, OP_POP_S, OP_POP_W, OP_POP_OPT, OP_DRAIN, OP_FILL };
 
 struct IBQ {
